@@ -1,0 +1,49 @@
+//go:build verif
+
+package internal
+
+import "sync/atomic"
+
+// Verification hooks (build tag verif). Every hook is inert until a harness
+// installs a callback or sets a switch.
+
+// VerifNoMaintenance, when set before NewStore, makes Store.maintenance return
+// at once so that the harness owns the write queue and the ticker body.
+var VerifNoMaintenance atomic.Bool
+
+// VerifTicks counts completed bodies of the once-per-second maintenance tick.
+var VerifTicks atomic.Int64
+
+// VerifExpireYieldFn is called in removeEntry(EXPIRED) just before the
+// deadline is re-checked, with the *Entry as argument.
+var VerifExpireYieldFn func(entry any)
+
+// VerifBufferYieldFn is called before each atomic step of Buffer.Add/Free.
+var VerifBufferYieldFn func(point int)
+
+// VerifSecondaryEnqueued / VerifSecondaryProcessed count hand-offs to the
+// secondary-cache workers and items the workers have finished with.
+var (
+	VerifSecondaryEnqueued  atomic.Int64
+	VerifSecondaryProcessed atomic.Int64
+)
+
+func verifNoMaintenance() bool { return VerifNoMaintenance.Load() }
+
+func verifTickDone() { VerifTicks.Add(1) }
+
+func verifExpireYield[K comparable, V any](entry *Entry[K, V]) {
+	if f := VerifExpireYieldFn; f != nil {
+		f(entry)
+	}
+}
+
+func verifBufferYield(point int) {
+	if f := VerifBufferYieldFn; f != nil {
+		f(point)
+	}
+}
+
+func verifSecondaryEnqueued() { VerifSecondaryEnqueued.Add(1) }
+
+func verifSecondaryProcessed() { VerifSecondaryProcessed.Add(1) }
